@@ -27,7 +27,7 @@ OPS1 = [
     "sl_1_4", "sl_s2", "sl_rev", "ix_1", "sl2_a", "tk_201", "add1", "add_row", "add_0d", "where_gt", "as_f4", "T", "rs_m1", "exp0", "flip0", "roll1",
     "cat_parts", "stack0", "bcast", "rc2", "rc_all", "rc_bal", "rc_tasks", "sum0", "mean_se2", "argmax0", "topk2", "var_dd1", "cumsum0", "cumsumm1_bl",
     "swv2_sum", "swv3_max", "diff", "ovl_reflect", "bn_move_sum3", "mb_double", "mb_demean_chunks", "mbk_a", "wred_a", "plus_arange", "plus_ones",
-    "outer_sincos", "tdot", "rnd_seed1", "rnd_rs1", "rnd_ss_a", "set_sl", "add_where_out",
+    "outer_sincos", "tdot", "einsum_sum", "einsum_all", "einsum_mm_all", "rnd_seed1", "rnd_rs1", "rnd_ss_a", "set_sl", "add_where_out",
 ]
 OPS2 = ["sl_1_4", "add1", "T", "rc2", "sum0", "mean_se2", "cumsum0", "swv2_sum", "mb_double", "cat_parts", "tk_201", "rs_m1"]
 
@@ -46,6 +46,43 @@ def _programs(tier):
             for o2 in OPS2:
                 progs.append((si, s, [[o1, [0]], [o2, [1]]]))
     return srcs, progs
+
+
+def _t(share, *items):
+    """A tuple of equal components that are either ONE object repeated
+    (share=True) or distinct equal objects (share=False)."""
+    import copy
+
+    first = items[0]
+    if share:
+        return tuple(first for _ in items)
+    return tuple(copy.deepcopy(i) if not isinstance(i, tuple) else tuple(list(i)) for i in items)
+
+
+# Constructors taking a nested argument with two equal components: the name
+# must not depend on whether the caller passed one object twice or two equal
+# objects ("equal inputs").  fn(da, np, x, share) with x a 4x4 array.
+IDENTITY_VARIANTS = {
+    "rechunk-tuples": lambda da, np, x, sh: x.rechunk(_t(sh, (2, 2), (2, 2))),
+    "rechunk-dict": lambda da, np, x, sh: x.rechunk(dict(zip((0, 1), _t(sh, (2, 2), (2, 2))))),
+    "rechunk-tasks": lambda da, np, x, sh: x.rechunk(_t(sh, (2, 2), (2, 2)), method="tasks"),
+    "rechunk-then-add": lambda da, np, x, sh: x.rechunk(_t(sh, (3, 1), (3, 1))) + 1,
+    "slice-pair": lambda da, np, x, sh: x[_t(sh, slice(1, 3), slice(1, 3))],
+    "take-pair": lambda da, np, x, sh: x[_t(sh, [2, 0, 1], [2, 0, 1])[0]][:, _t(sh, [2, 0, 1], [2, 0, 1])[1]],
+    "pad": lambda da, np, x, sh: da.pad(x, _t(sh, (1, 1), (1, 1)), mode="constant"),
+    "tile": lambda da, np, x, sh: da.tile(x, _t(sh, 2, 2)),
+    "sum-axes": lambda da, np, x, sh: x.sum(axis=(0, 1) if sh else tuple([0, 1])),
+    "overlap-depth": lambda da, np, x, sh: da.overlap.overlap(x, depth=dict(zip((0, 1), _t(sh, (1, 1), (1, 1)))), boundary="reflect"),
+    "map_overlap": lambda da, np, x, sh: da.map_overlap(np.negative, x, depth=_t(sh, (1, 1), (1, 1)), boundary="reflect", dtype="f8"),
+    "reshape": lambda da, np, x, sh: x.reshape(_t(sh, (2, 2), (2, 2))[0] + _t(sh, (2, 2), (2, 2))[1]),
+    "broadcast_to": lambda da, np, x, sh: da.broadcast_to(x, _t(sh, (4, 4), (4, 4))[0] + _t(sh, (4, 4), (4, 4))[1]),
+    "from_array-equal-data": lambda da, np, x, sh: da.from_array(np.arange(16.0).reshape(4, 4), chunks=_t(sh, (2, 2), (2, 2))),
+    "map_blocks-kwargs": lambda da, np, x, sh: da.map_blocks(np.clip, x, dtype="f8", **dict(zip(("a_min", "a_max"), _t(sh, 3.0, 3.0)))),
+    "coarsen": lambda da, np, x, sh: da.coarsen(np.sum, x, dict(zip((0, 1), _t(sh, 2, 2)))),
+    "ones-chunks": lambda da, np, x, sh: da.ones((4, 4), chunks=_t(sh, (2, 2), (2, 2))),
+    "concatenate-equal-leaves": lambda da, np, x, sh: da.concatenate([x, x] if sh else [x, da.from_array(np.arange(16.0).reshape(4, 4), chunks=((2, 2), (1, 3)))]),
+    "stack-rechunk": lambda da, np, x, sh: da.stack([x.rechunk(_t(sh, (2, 2), (2, 2))), x.rechunk(_t(True, (2, 2), (2, 2)))]),
+}
 
 
 def _h(obj):
@@ -87,7 +124,7 @@ class Rec:
         return np.asarray(self.a, dtype=dtype)
 
 
-def worker_build(tier, outdir, do_pickle):
+def worker_build(tier, outdir, do_pickle, only=None):
     """Runs in a fresh interpreter."""
     import cloudpickle
     import dask_array as da
@@ -96,6 +133,8 @@ def worker_build(tier, outdir, do_pickle):
 
     cleanrefs.ensure()
     srcs, progs = _programs(tier)
+    if only:
+        progs = [p for p in progs if f"{p[0]}:" + ">".join(st[0] for st in p[2]) == only]
     table, table2 = {}, {}
     for rnd in (0, 1):
         for si, s, steps in progs:
@@ -132,6 +171,20 @@ def worker_build(tier, outdir, do_pickle):
     y = (x + 1)[1:4]
     yb = cloudpickle.loads(cloudpickle.dumps(y))
     table["__rec__"] = {"stable_access": n1 == n2, "pickle_same": yb.name == y.name and yb.__dask_keys__() == y.__dask_keys__(), "value_ok": bool(np.array_equal(yb.compute(scheduler="sync"), (np.arange(6.0) + 1)[1:4]))}
+    x44 = da.from_array(np.arange(16.0).reshape(4, 4), chunks=((2, 2), (1, 3)))
+    idv = {}
+    for label, fn in IDENTITY_VARIANTS.items():
+        if only and only != "id:" + label:
+            continue
+        try:
+            ya, yb = fn(da, np, x44, True), fn(da, np, x44, False)
+            da_, db_ = _describe(ya), _describe(yb)
+            va, vb = ya.compute(scheduler="sync"), yb.compute(scheduler="sync")
+            idv[label] = {"same": da_ == db_, "a": da_, "b": db_, "value_same": bool(np.array_equal(va, vb))}
+            table["id:" + label], table2["id:" + label] = da_, da_
+        except Exception as e:  # noqa: BLE001
+            idv[label] = {"error": type(e).__name__ + ": " + str(e)[:100]}
+    table["__identity__"] = idv
     diffs = [pid for pid in table if not pid.startswith("__") and table2.get(pid) != table[pid]]
     table["__rebuild_diffs__"] = diffs
     with open(os.path.join(outdir, "table.json"), "w") as f:
@@ -190,7 +243,7 @@ def plan(tier, seed):
         "coverage": {
             "exhaustive": True,
             "bounds": {"programs": len(progs), "interpreters": 3, "hash_seeds": ["0", "1", "random"], "depth": 2, "ops_first": len(OPS1), "ops_second": len(OPS2), "sources": len(srcs)},
-            "rule": "every program of the depth<=2 space (named module-level functions only) is built in three fresh interpreters (PYTHONHASHSEED 0, 1, random) and twice inside each: name, __dask_keys__, sorted optimized graph keys, chunks, dtype and frisky output keys must be identical everywhere; every collection is cloudpickled in interpreter A and loaded in A and in a fresh interpreter B: identity unchanged, value equal NumPy; an untokenizable source keeps its name per instance and across the round trip. Non-trivial = program with >= 1 op",
+            "rule": "every program of the depth<=2 space (named module-level functions only) is built in three fresh interpreters (PYTHONHASHSEED 0, 1, random) and twice inside each: name, __dask_keys__, sorted optimized graph keys, chunks, dtype and frisky output keys must be identical everywhere; every collection is cloudpickled in interpreter A and loaded in A and in a fresh interpreter B: identity unchanged, value equal NumPy; for every constructor of IDENTITY_VARIANTS (nested arguments with two equal components: rechunk tuples/dict, slice pairs, index lists, pad widths, reps, axes, overlap depths, reshape/broadcast shapes, chunks, kwargs, equal leaves) both sharing patterns (one object twice / two equal objects) give the same identity; an untokenizable source keeps its name per instance and across the round trip. Non-trivial = program with >= 1 op",
         },
         "assumptions": ["tokenization of callables is dask.tokenize's (module-level functions only)", "scratch files live under /verif/.scratch and are removed"],
     }
@@ -209,7 +262,7 @@ def run_shard(shard):
         d = os.path.join(root, label)
         os.makedirs(d)
         dirs[label] = d
-        procs.append((label, _spawn(["build", tier, d, "1" if label == "A" else "0"], hs)))
+        procs.append((label, _spawn(["build", tier, d, "1" if label == "A" else "0", shard.get("only") or ""], hs)))
     tables = {}
     try:
         for label, p in procs:
@@ -236,7 +289,7 @@ def run_shard(shard):
             out.count("nontrivial")
 
     def fail(kind, pid, msg):
-        lastop = pid.split(":")[1].split(">")[-1] if ":" in pid else pid
+        lastop = pid.split(":", 1)[1].split(">")[-1] if ":" in pid else pid
         out.fail({"kind": kind, "signature": f"{kind}:{lastop}", "case": {"pid": pid, "tier": tier}, "detail": f"program {pid}: {msg}"})
 
     for label in ("B", "C"):
@@ -250,6 +303,15 @@ def run_shard(shard):
     for label, T in tables.items():
         for p in T.get("__rebuild_diffs__", []):
             fail("rebuild-in-process", p, f"building the same program twice in interpreter {label} gave different identities")
+        for lab, e in T.get("__identity__", {}).items():
+            out.count("identity_variants")
+            if "error" in e:
+                out.count("identity_variant_errors")
+            elif not e["same"]:
+                diff = {k: (e["a"][k], e["b"][k]) for k in e["a"] if e["a"][k] != e["b"][k]}
+                fail("identity-of-equal-arguments", "id:" + lab, f"passing one object twice vs two equal objects changes the identity in interpreter {label}: {diff}")
+            elif not e["value_same"]:
+                fail("identity-variant-value", "id:" + lab, "equal arguments computed different values")
         rec = T.get("__rec__", {})
         for k, v in rec.items():
             if not v:
@@ -289,7 +351,7 @@ def vacuity(agg, plan):
 
 
 def replay(case):
-    res = run_shard({"tier": case.get("tier", "quick"), "seed": 0})
+    res = run_shard({"tier": case.get("tier", "quick"), "seed": 0, "only": case["pid"]})
     for f in res["failures"]:
         if f["case"]["pid"] == case["pid"]:
             return f
@@ -299,6 +361,6 @@ def replay(case):
 if __name__ == "__main__":
     mode = sys.argv[1]
     if mode == "build":
-        worker_build(sys.argv[2], sys.argv[3], sys.argv[4] == "1")
+        worker_build(sys.argv[2], sys.argv[3], sys.argv[4] == "1", (sys.argv[5] if len(sys.argv) > 5 else "") or None)
     elif mode == "load":
         worker_load(sys.argv[2], sys.argv[3])
